@@ -5,8 +5,9 @@
 //        A <d> | G | T <v|inv>      advance counter / getNow() / setNow(v)
 //        E                          end: prints {"id":..,"steps":[[epoch,prev,init,last,bw,bv,reading],..]}
 //   clockdrv scl         scripts against a SystemClockLoop:
-//        S <id> <sync> <initial> <timeout> <mode distinct|same|none> <base>
-//        L <d> <ready 0|1> <rv|inv>  let d ms pass, put the reference clock in that state, call loop()
+//        S <id> <sync> <initial> <timeout> <mode distinct|same|none> <base> [<preset|inv>]
+//        L <d> <ready 0|1> <rv|inv>  let d ms pass, put the reference clock in that state, call loop(), read state then getNow()
+//        Q <d> <ready 0|1> <rv|inv>  the same without reading anything afterwards
 //        E
 //   clockdrv sweep <phase0> <phase1> <gapmode all|boundary>
 //        set(T)@m0, one poll after `gap` ms, for phases [phase0,phase1) x gaps; prints mismatches
@@ -102,9 +103,10 @@ static int run_scl() {
   RecClock* ref = nullptr; RecClock* backup = nullptr; SCL* c = nullptr;
   std::string out; std::string mode;
   while (fgets(line, sizeof line, stdin)) {
-    char a[64], m[32], base[64]; int sync, initial, timeout;
+    char a[64], m[32], base[64], preset[64]; int sync, initial, timeout;
     if (line[0] == 'S') {
-      sscanf(line, "S %63s %d %d %d %31s %63s", a, &sync, &initial, &timeout, m, base);
+      strcpy(preset, "inv");
+      sscanf(line, "S %63s %d %d %d %31s %63s %63s", a, &sync, &initial, &timeout, m, base, preset);
       delete c; delete ref; delete backup;
       mode = m;
       ref = new RecClock(); backup = new RecClock();
@@ -114,10 +116,20 @@ static int run_scl() {
       c->fake = strtoul(base, nullptr, 10);
       // members the constructor leaves uninitialised are given the value the specification starts from
       c->mLastSyncMillis = c->fake; c->mRequestStartMillis = c->fake;
+      // the application sets the clock before the first loop() call
+      if (strcmp(preset, "inv")) c->setNow((acetime_t) atol(preset));
       out = std::string("{\"id\":\"") + a + "\",\"steps\":[";
     } else if (line[0] == 'E') {
       if (out.back() == ',') out.pop_back();
       out += "]}"; puts(out.c_str());
+    } else if (line[0] == 'Q' && c) {
+      // a loop() call after which the application looks at nothing (no getNow(), no state read)
+      char d[64], rv[64]; int ready;
+      sscanf(line, "Q %63s %d %63s", d, &ready, rv);
+      c->fake += strtoul(d, nullptr, 10);
+      ref->ready = ready != 0;
+      ref->value = (acetime_t) parse_v(rv);
+      c->loop();
     } else if (line[0] == 'L' && c) {
       char d[64], rv[64]; int ready;
       sscanf(line, "L %63s %d %63s", d, &ready, rv);
@@ -130,8 +142,12 @@ static int run_scl() {
       char buf[64];
       out += std::string("[\"") + status_name(c->mRequestStatus) + "\",";
       snprintf(buf, sizeof buf, "%u,%lu,%lu,", (unsigned) c->mCurrentSyncPeriodSeconds, c->mRequestStartMillis, c->mLastSyncMillis); out += buf;
-      out += num(c->epoch()) + "," + num(c->prev()) + "," + (c->isInit() ? "1" : "0") + "," + num(c->last()) + ","
-          + num(bk->lastSet) + "," + num(bk->sets) + "," + num(ref->requests) + "," + num(c->getNow()) + "," + num(c->getLastSyncTime()) + "],";
+      // the object's state is read before getNow(), which folds elapsed time into it
+      long e0 = c->epoch(), p0 = c->prev(), l0 = c->last();
+      bool i0 = c->isInit();
+      long reading = c->getNow();
+      out += num(e0) + "," + num(p0) + "," + (i0 ? "1" : "0") + "," + num(l0) + ","
+          + num(bk->lastSet) + "," + num(bk->sets) + "," + num(ref->requests) + "," + num(reading) + "," + num(c->getLastSyncTime()) + "],";
     }
   }
   return 0;
